@@ -393,6 +393,8 @@ def _call0(fn):
 
 def bigkernel_cases(thorough):
     cases = []
+    cases.append([4096, [5, 1023, 1024, 2048, 4095]])        # beyond the 1024 bits of a static cpu_set_t
+    cases.append([4096, [2048]])
     for nbits in (64, 128, 256, 1024) + ((512, 4096, 65536) if thorough else ()):
         for mask in ([0], [nbits - 1], sorted({0, 1, 70 % nbits, nbits - 1}), list(range(nbits)) if nbits <= 256 else list(range(0, nbits, 7))):
             cases.append([nbits, mask])
@@ -516,7 +518,10 @@ def sim_cases(thorough):
     shapes = [("0-3", 4, [0, 1, 2, 3]), ("0,2", 4, [0, 2]), ("0-1,4-5", 8, [0, 1, 4, 5]), ("3", 4, [3]), ("0-1,3", 4, [0, 1, 3]),
               ("1-2", 4, [1, 2]), ("0-7", 8, list(range(8))), ("0,2-3,6", 8, [0, 2, 3, 6]),
               # CPU 3 (resp. 1) hot-unplugged: as many /proc/stat rows as online CPUs, the highest number beyond the row count
-              ("0-2,4", 4, [0, 1, 2, 4]), ("0,2-3", 3, [0, 2, 3])]
+              ("0-2,4", 4, [0, 1, 2, 4]), ("0,2-3", 3, [0, 2, 3]),
+              # range ends with different numbers of digits (10+ CPUs)
+              ("0-3,8-11", 12, [0, 1, 2, 3, 8, 9, 10, 11]), ("8-11", 12, [8, 9, 10, 11]), ("2-15", 16, list(range(2, 16))),
+              ("9-10", 12, [9, 10])]
     for shape, ncpu, elig in shapes:
         reqs = [()] + [(c,) for c in range(ncpu)] + [tuple(elig), tuple(range(ncpu)), (ncpu,), (elig[0], elig[0])]
         if len(elig) > 1:
